@@ -183,7 +183,7 @@ class Builder():
 
         try:
             if filename is not None:
-                self._current_file = filename
+                self._current_file = os.path.expanduser(filename) # same form as for names of files read above
 
             if safe is None:
                 safe = self._default_safe_flag
